@@ -401,6 +401,38 @@ def find_witness(binpath, oracle, seed):
             case = j
         if 'cases' in j:
             summary = j
+    if summary is None and case is None:
+        # the oracle process itself died (the engine overflowed the stack or aborted on some case): find the case by running
+        # them one by one, each in its own process
+        lst = sh([binpath, oracle, '--search', '--seed', str(seed), '--list'], timeout=600)
+        cases = []
+        for l in lst.stdout.split('\n'):
+            l = l.strip()
+            if l.startswith('"'):
+                try:
+                    cases.append(json.loads(l))
+                except Exception:
+                    pass
+        t0 = time.time()
+        for c in cases:
+            if time.time() - t0 > 300:
+                break
+            q = sh([binpath, oracle, '--case', c], timeout=60)
+            if q.returncode not in (0, 1):
+                case = {'oracle': oracle, 'case': c, 'ok': False,
+                        'detail': 'the process died on this case (exit status %s): %s' % (q.returncode, (q.stderr or '').strip()[-200:])}
+                break
+            if q.returncode == 1:
+                for l in q.stdout.split('\n'):
+                    if l.strip().startswith('{'):
+                        try:
+                            case = json.loads(l)
+                        except Exception:
+                            pass
+                break
+        summary = {'oracle': oracle, 'cases': len(cases), 'failures': 1 if case else 0, 'note': 'batch run died (exit status %s); cases re-run one per process' % p.returncode}
+        if case is None:
+            case = {'oracle': oracle, 'case': '-', 'ok': False, 'detail': 'the oracle process died (exit status %s) and no single case reproduces it' % p.returncode}
     return case, summary
 
 
